@@ -3,9 +3,9 @@
    TkProofs.Round_proofs, followed by Print Assumptions.
 
    Model (TkModel.Round): precision = Scale::get_precision, dround_hafz =
-   Decimal::round_dp_with_strategy(_, MidpointAwayFromZero), dfmt_prec = Display with a
-   precision (None = the library panics: its 32-character buffer overflows), shown_text sc d
-   = the characters a text report prints for the figure d (None = the report panics).
+   Decimal::round_dp_with_strategy(_, MidpointAwayFromZero), dfmt = Decimal::to_string,
+   with_decimals = Scale::with_decimals (zero padding by hand), shown_text sc d =
+   Scale::format = the characters a text report prints for the figure d.
    Specification (TkSpec.Round_spec), on rational numbers: qval d = mantissa / 10^scale,
    hafz k q = sign(q) * floor(|q| * 10^k + 1/2) / 10^k, dread = the number a printed text
    denotes and how many decimals it is written with. *)
@@ -24,8 +24,8 @@ Print Assumptions C17_round_contract.
 
 (* the printed text is a number written with at least min and at most max decimals
    (exactly get_precision many), and it denotes the value that was rounded for display *)
-Theorem C17_digits : forall sc d t, (sc_min sc <= sc_max sc)%N -> shown_text sc d = Some t ->
-  exists r, dread t = Some r
+Theorem C17_digits : forall sc d, (sc_min sc <= sc_max sc)%N ->
+  exists r, dread (shown_text sc d) = Some r
     /\ (sc_min sc <= ds r <= sc_max sc)%N
     /\ (qval r == qval (shown_dec sc d))%Q.
 Proof. exact shown_digits. Qed.
@@ -65,8 +65,8 @@ Print Assumptions C17_nearest.
    z = value * 10^28 alone — not of the stored scale and not of the way it was summed.
    With C02_own / C02_tree / C02_delta (d28 figure = exact sum of the unrounded postings)
    this is "value (shown total) = hafz (sum of the exact parts)". *)
-Theorem C17_display_only : forall sc d z t, (sc_min sc <= sc_max sc)%N -> dwf d -> d28 d = z ->
-  shown_text sc d = Some t -> shows sc t (q28 z).
+Theorem C17_display_only : forall sc d z, (sc_min sc <= sc_max sc)%N -> dwf d -> d28 d = z ->
+  shows sc (shown_text sc d) (q28 z).
 Proof. exact fig_display_only. Qed.
 Print Assumptions C17_display_only.
 
@@ -77,23 +77,21 @@ Print Assumptions C17_same_value.
 
 (* display only, report level: when the rows carry the exact sums of the postings, every
    amount column of the balance / balance-group text shows the rounded exact sum *)
-Theorem C17_balance_rows : forall sc ps rows trs, (sc_min sc <= sc_max sc)%N ->
-  Forall (exact_row ps) rows -> bal_text_rows sc rows = Some trs ->
-  Forall2 (row_shows sc ps) rows trs.
+Theorem C17_balance_rows : forall sc ps rows, (sc_min sc <= sc_max sc)%N ->
+  Forall (exact_row ps) rows -> Forall2 (row_shows sc ps) rows (bal_text_rows sc rows).
 Proof. exact bal_rows_display_only. Qed.
 Print Assumptions C17_balance_rows.
 
-Theorem C17_balance_deltas : forall sc rows deltas tds, (sc_min sc <= sc_max sc)%N ->
+Theorem C17_balance_deltas : forall sc rows deltas, (sc_min sc <= sc_max sc)%N ->
   (forall c d, In (c, d) deltas -> dwf d /\ d28 d = spec_delta rows c) ->
-  bal_text_deltas sc deltas = Some tds ->
-  forall t c, In (t, c) tds -> shows sc t (q28 (spec_delta rows c)).
+  forall t c, In (t, c) (bal_text_deltas sc deltas) -> shows sc t (q28 (spec_delta rows c)).
 Proof. exact bal_deltas_display_only. Qed.
 Print Assumptions C17_balance_deltas.
 
-Theorem C17_register_row : forall sc amount total za zt ta tt, (sc_min sc <= sc_max sc)%N ->
+Theorem C17_register_row : forall sc amount total za zt, (sc_min sc <= sc_max sc)%N ->
   dwf amount -> dwf total -> d28 amount = za -> d28 total = zt ->
-  reg_text_row sc amount total = Some (ta, tt) ->
-  shows sc ta (q28 za) /\ shows sc tt (q28 zt).
+  shows sc (fst (reg_text_row sc amount total)) (q28 za)
+  /\ shows sc (snd (reg_text_row sc amount total)) (q28 zt).
 Proof. exact reg_row_display_only. Qed.
 Print Assumptions C17_register_row.
 
@@ -115,35 +113,26 @@ Proof. exact round_ok_sound. Qed.
 Print Assumptions C17_round_oracle_sound.
 
 (* ... and it accepts everything the model prints (the oracle is not stricter than the theorems) *)
-Theorem C17_oracle_complete : forall sc d t, (sc_min sc <= sc_max sc)%N ->
-  shown_text sc d = Some t -> shown_ok sc d t = true.
+Theorem C17_oracle_complete : forall sc d, (sc_min sc <= sc_max sc)%N ->
+  shown_ok sc d (shown_text sc d) = true.
 Proof. exact shown_ok_model. Qed.
 Print Assumptions C17_oracle_complete.
 
-(* THE FULL PROPERTY ("for all scale settings 0 <= min <= max <= 28 every amount is shown")
-   IS FALSE for the code as it is (finding F18): the text exists for every figure below 10^n
-   when n + 2 + max <= 32 - with the default scale { min = 2, max = 7 }: below 10^23 - ... *)
-Theorem C17_text_total : forall sc d n, (sc_min sc <= sc_max sc)%N ->
-  Z.abs (dm d) < pow10 (ds d + N.of_nat n) ->
-  (n + 2 + N.to_nat (sc_max sc) <= fmt_capacity)%nat ->
-  exists t, shown_text sc d = Some t.
-Proof. exact shown_text_total. Qed.
-Print Assumptions C17_text_total.
-
-(* ... but there are admitted scale settings and representable figures for which the report
-   panics instead: 1234.5 under scale = { min = 28, max = 28 } (4 + 1 + 28 = 33 characters) *)
-Theorem C17_total_refuted : exists sc d,
-  scale_wf sc /\ fits d = true /\ shown_text sc d = None.
-Proof. exact shown_text_refuted. Qed.
-Print Assumptions C17_total_refuted.
+(* the text is total: shown_text is a function into strings for every figure and every scale
+   setting (no panic outcome; finding F18 - the library's Display with a precision overflowing
+   its 32-character buffer - is repaired by padding by hand). Where the library's Display
+   with a precision does produce a text, it is the same text. *)
+Theorem C17_library_display_agrees : forall d p t, (ds d <= p)%N -> dfmt_prec d p = Some t ->
+  t = with_decimals d p.
+Proof. exact dfmt_prec_with_decimals. Qed.
+Print Assumptions C17_library_display_agrees.
 
 (* non-vacuity: 0.125 + 0.125 at scale (2,2): the parts are shown as 0.13 and 0.13, their
    total as 0.25 = hafz (0.250), not as 0.26; the rows satisfy exact_row *)
 Example C17_example :
-  exists rows trs, balance (fun _ => true) (fun l => l) ex_ps = Some rows
+  exists rows, balance (fun _ => true) (fun l => l) ex_ps = Some rows
   /\ Forall (exact_row ex_ps) rows
-  /\ bal_text_rows ex_sc rows = Some trs
-  /\ map (fun tr => (bt_acc tr, bt_own tr, bt_tree tr)) trs
+  /\ map (fun tr => (bt_acc tr, bt_own tr, bt_tree tr)) (bal_text_rows ex_sc rows)
      = [ ([[97]],       [48; 46; 48; 48],     [48; 46; 50; 53]);
          ([[97]; [98]], [48; 46; 49; 51],     [48; 46; 49; 51]);
          ([[97]; [99]], [48; 46; 49; 51],     [48; 46; 49; 51]);
@@ -151,11 +140,14 @@ Example C17_example :
 Proof. exact display_example. Qed.
 
 (* 0.125 -> 0.13, -0.125 -> -0.13, 2.5 -> 3, -2.5 -> -3, 3.5 -> 4, 0.5 -> 1,
-   -0.004 -> 0.00 (no sign), -0.005 -> -0.01 *)
+   -0.004 -> 0.00 (no sign), -0.005 -> -0.01; 1234.5 under { min = 28, max = 28 } is
+   printed with 28 decimals (33 characters) *)
 Example C17_midpoints :
   map (fun mk => shown_text (mkScale 0 (snd mk)) (mkDec (fst (fst mk)) (snd (fst mk))))
       [ (125, 3%N, 2%N); (-125, 3%N, 2%N); (25, 1%N, 0%N); (-25, 1%N, 0%N); (35, 1%N, 0%N);
         (5, 1%N, 0%N); (-4, 3%N, 2%N); (-5, 3%N, 2%N) ]
-  = map Some [ [48; 46; 49; 51]; [45; 48; 46; 49; 51]; [51]; [45; 51]; [52]; [49];
-      [48; 46; 48; 48]; [45; 48; 46; 48; 49] ]%N.
+  = [ [48; 46; 49; 51]; [45; 48; 46; 49; 51]; [51]; [45; 51]; [52]; [49];
+      [48; 46; 48; 48]; [45; 48; 46; 48; 49] ]%N
+  /\ shown_text (mkScale 28 28) (mkDec 12345 1)
+     = ([49; 50; 51; 52; 46; 53] ++ repeat 48 27)%N.
 Proof. exact midpoint_examples. Qed.
